@@ -35,7 +35,7 @@ Str(ch, n) == [j \in 1..n |-> CharCP(ch)]
 
 IsListKind(S) == S.kind \in {"list", "listcprim"}
 IsStringKind(S) == S.kind \in {"str", "cprim"}
-HasForeignGuard(S) == \E a \in AllAtoms(S) : a.g \in ForeignGuards
+HasForeignGuard(S) == \E a \in AllAtoms(S) : a.g \in ForeignGuards \cup ChainedGuards
 HasModelType(S) == Depth(S) > 1 \/ S.wmt
 
 \* the slot whose strings carry patterns: x itself, or the items of a list of constrained primitives
